@@ -530,7 +530,14 @@ func (C18) Judge(c *Ctx, sc *Scenario) []Violation {
 			}
 			// the simulator's own determinism: same decisions, same trace
 			if o.TraceSig() != base.TraceSig() {
-				harnessPanic("trace of the same scenario differs between runs although the observable outcome is equal (simulator nondeterminism): argv=%v", sc.Argv)
+				// The bytes are equal, the order of yq's own reads, writes and steps is not. On the pinned tree this
+				// never happens (yq evaluates on one goroutine; the self-test demands identical traces). A yq that
+				// has grown goroutines of its own can do its I/O in a different order and still produce the same
+				// bytes, which C18 allows: counted, not reported - but faults addressed by occurrence ("third read")
+				// no longer land on the same event in a replay of such a tree.
+				if !c.Quiet {
+					c.Count("probe.event_order_differs_with_equal_outcome")
+				}
 			}
 		}
 	case "history":
@@ -679,11 +686,30 @@ func genMapOrderScenario(r *Rand) *Scenario {
 		rows.Kids = append(rows.Kids, it)
 	}
 	doc.Set("e", rows)
-	expr := Pick(r, []string{
+	exprs := []string{"delpaths([[\"e\", 0], [\"e\", 1], [\"e\", 2]])", "delpaths([[\"d\", 0], [\"d\", 2], [\"d\", 1]])", "del(.e[0], .e[1])", "delpaths([[\"e\", 0, \"k\"], [\"e\", 1, \"k\"], [\"a\"]])",
+		".e | sort_by(.k)", ".e | sort_by(.v) | map(.k)", "[.e[] | .k] | unique", ".e | group_by(.v) | map(length)"}
+	if r.Chance(1, 2) {
+		// a collection big enough for any batching, chunking or worker threshold, with few distinct keys and unique ids
+		big := vSeq()
+		for i, n := 0, r.Range(64, 300); i < n; i++ {
+			it := vMap()
+			it.Set("id", vStr(fmt.Sprintf("n%03d", i)))
+			it.Set("k", vStr(Pick(r, []string{"red", "green", "blue"})))
+			it.Set("v", vInt(r.Range(0, 3)))
+			big.Kids = append(big.Kids, it)
+		}
+		doc.Set("big", big)
+		exprs = []string{".big | sort_by(.k) | map(.id)", ".big | sort_by(.v) | map(.id)", ".big | group_by(.k) | map(map(.id))", ".big | unique_by(.k) | map(.id)", "[.big[] | .k] | unique", ".big | sort_by(.k, .v) | .[0:9] | map(.id)",
+			".big | map(select(.v == 1)) | map(.id)", "[.big[] | select(.k == \"red\") | .id]", ".big | group_by(.v) | map(length)", ".big | map(.v) | sort", ".big | sort_by(.k) | reverse | .[0].id", ".big | to_entries | map(.key)", ".big[] |= pick([\"k\", \"id\"])"}
+	}
+	expr := Pick(r, append(exprs, []string{
 		".e | pivot", "[.e[] | keys] | flatten | unique", ".e | group_by(.k)", ".e[] as $i ireduce ({}; . * $i)", ".e | map(to_entries)", ".e | unique_by(.k)",
 		".e | map(with_entries(.value |= . + 1))", ".a as $a | .b as $b | .c as $c | .d as $d | [$a, $b, $c, $d]", "sort_keys(..)", ".e | map(keys)", ".e[0] * .e[1] * .e[2]", "[.e[] | to_entries[] | .key] | unique",
 		".e | map(pick([\"w\", \"u\", \"t\", \"k\"]))", ".e | (.[0] | keys) as $k | map(pick($k))", ".e | map(omit([\"k\"]))", "to_entries | map(.key)", ".e | pivot | to_entries",
-	})
+	}...))
+	if doc.Get("big") != nil && !strings.Contains(expr, ".big") {
+		expr = exprs[r.Intn(len(exprs))]
+	}
 	out := Pick(r, []string{"-o=json", "-o=yaml", "-o=props", "-o=csv"})
 	argv := []string{out, expr, "f1.yaml"}
 	if out == "-o=json" {
